@@ -19,7 +19,7 @@ import (
 
 // c05Case is one point of the promotion lattice.
 type c05Case struct {
-	Strategy     int // 0 none, 1 auto, 2 manual, 3 manual with duration / noRestartsDuration left over from auto mode (a strategy edit during the canary; validation rejects it, time must not promote)
+	Strategy     int // 0 none, 1 auto, 2 manual, 3 manual with duration / noRestartsDuration left over from auto mode (a strategy edit during the canary; validation rejects it, time must not promote), 4 the same with exactly the values the auto-mode defaulting writes (10m / 5m)
 	AgeVsDur     int // 0: 1s before the duration ends, 1: exactly at it, 2: 1s after, 3: long after
 	NoRestarts   int // 0 default (unset), 1 zero, 2 one minute
 	LastRestart  int // 0 none, 1 well before the limit (long ago), 2 exactly noRestartsDuration ago, 3 recent (inside the window)
@@ -51,6 +51,7 @@ func runC05(k c05Case) (vs []mon.V, nontrivial bool, err error) {
 	}
 	st := edsv1.ExtendedDaemonSetSpecStrategy{}
 	noRestarts := 5 * time.Minute // the default filled in by defaulting
+	dur := c05Duration
 	if k.Strategy != 0 {
 		one := intstr.FromInt(1)
 		cn := &edsv1.ExtendedDaemonSetSpecStrategyCanary{Replicas: &one}
@@ -74,6 +75,12 @@ func runC05(k c05Case) (vs []mon.V, nontrivial bool, err error) {
 			cn.ValidationMode = edsv1.ExtendedDaemonSetSpecStrategyCanaryValidationModeAuto
 			cn.Duration = &metav1.Duration{Duration: c05Duration}
 		}
+		if k.Strategy == 4 {
+			cn.ValidationMode = edsv1.ExtendedDaemonSetSpecStrategyCanaryValidationModeAuto
+			cn.Duration = &metav1.Duration{Duration: 10 * time.Minute}
+			cn.NoRestartsDuration = &metav1.Duration{Duration: 5 * time.Minute}
+			dur = 10 * time.Minute
+		}
 	}
 	// with a strategy the second letter stays a canary; without one we must stop
 	// before the reconcile that would promote it, so build by hand in both cases:
@@ -96,7 +103,7 @@ func runC05(k c05Case) (vs []mon.V, nontrivial bool, err error) {
 	if target == "" {
 		return nil, false, fmt.Errorf("harness: second replica set missing")
 	}
-	if k.Strategy == 3 {
+	if k.Strategy == 3 || k.Strategy == 4 {
 		_ = c.EditEDS("ns1", "foo", func(x *edsv1.ExtendedDaemonSet) {
 			x.Spec.Strategy.Canary.ValidationMode = edsv1.ExtendedDaemonSetSpecStrategyCanaryValidationModeManual
 		})
@@ -105,13 +112,13 @@ func runC05(k c05Case) (vs []mon.V, nontrivial bool, err error) {
 	var now time.Time
 	switch k.AgeVsDur {
 	case 0:
-		now = created.Add(c05Duration - time.Second)
+		now = created.Add(dur - time.Second)
 	case 1:
-		now = created.Add(c05Duration)
+		now = created.Add(dur)
 	case 2:
-		now = created.Add(c05Duration + time.Second)
+		now = created.Add(dur + time.Second)
 	case 3:
-		now = created.Add(c05Duration + 30*time.Minute)
+		now = created.Add(dur + 30*time.Minute)
 	}
 	c.Advance(now.Sub(c.Now()))
 	c.MutateERS("ns1", target, func(rs *edsv1.ExtendedDaemonSetReplicaSet) {
@@ -216,7 +223,7 @@ func letterTpl(l byte) corev1.PodTemplateSpec {
 
 func c05Draw(rt *rapid.T) c05Case {
 	return c05Case{
-		Strategy: rapid.IntRange(0, 3).Draw(rt, "strategy"), AgeVsDur: rapid.IntRange(0, 3).Draw(rt, "age"),
+		Strategy: rapid.IntRange(0, 4).Draw(rt, "strategy"), AgeVsDur: rapid.IntRange(0, 3).Draw(rt, "age"),
 		NoRestarts: rapid.IntRange(0, 2).Draw(rt, "noRestarts"), LastRestart: rapid.IntRange(0, 3).Draw(rt, "lastRestart"),
 		Pause: rapid.IntRange(0, 3).Draw(rt, "pause"), Unpaused: rapid.Bool().Draw(rt, "unpaused"), Valid: rapid.IntRange(0, 2).Draw(rt, "valid"),
 		Failed: rapid.Bool().Draw(rt, "failed"), ActiveExists: rapid.IntRange(0, 3).Draw(rt, "activeExists") != 0,
@@ -233,7 +240,7 @@ func c05Report(rec *evid.Rec, k c05Case, vs []mon.V) {
 
 // TestC05Lattice samples the promotion lattice (quick) ...
 func TestC05Lattice(t *testing.T) {
-	rec := evid.New("TestC05Lattice", "C05", "point of the promotion lattice {strategy absent/auto/manual/manual with a duration left over} x {age vs duration: -1s, 0, +1s, >>} x {noRestartsDuration default/0/1m} x {last restart none/old/at the limit/recent} x {pause none/annotation/condition/annotation on a set that carries Canary-Paused=False from an earlier pause} x unpaused x {canary-valid absent/this/other} x failed x {recorded active set exists / exists but is being deleted (finalizer) / is gone} x {status.canary unset / names the matching set / names a superseded one}, then one EDS reconcile judged by the promotion rule; non-trivial = canary strategy present and the active set exists (the rule, not a shortcut, decides); distinct by lattice point")
+	rec := evid.New("TestC05Lattice", "C05", "point of the promotion lattice {strategy absent/auto/manual/manual with a duration left over/manual with the default durations left over} x {age vs duration: -1s, 0, +1s, >>} x {noRestartsDuration default/0/1m} x {last restart none/old/at the limit/recent} x {pause none/annotation/condition/annotation on a set that carries Canary-Paused=False from an earlier pause} x unpaused x {canary-valid absent/this/other} x failed x {recorded active set exists / exists but is being deleted (finalizer) / is gone} x {status.canary unset / names the matching set / names a superseded one}, then one EDS reconcile judged by the promotion rule; non-trivial = canary strategy present and the active set exists (the rule, not a shortcut, decides); distinct by lattice point")
 	t.Cleanup(func() {
 		if !t.Failed() {
 			rec.Done()
@@ -259,11 +266,11 @@ func TestC05Lattice(t *testing.T) {
 
 // ... and TestC05Exhaustive enumerates it completely (thorough; sharded by the driver).
 func TestC05Exhaustive(t *testing.T) {
-	rec := evid.New("TestC05Exhaustive", "C05", "complete enumeration of the promotion lattice (69120 points, the recorded active set existing / terminating / gone, incl. the recorded status.canary: unset / the matching set / a stale other name), one EDS reconcile each; non-trivial = canary strategy present and the active set exists")
+	rec := evid.New("TestC05Exhaustive", "C05", "complete enumeration of the promotion lattice (89856 points, the recorded active set existing / terminating / gone, incl. the recorded status.canary: unset / the matching set / a stale other name), one EDS reconcile each; non-trivial = canary strategy present and the active set exists")
 	shard, shards := envInt("VERIF_SHARD", 0), envInt("VERIF_SHARDS", 1)
 	i := 0
 	failed := false
-	for s := 0; s < 4; s++ {
+	for s := 0; s < 5; s++ {
 		for a := 0; a < 4; a++ {
 			for nr := 0; nr < 3; nr++ {
 				for lr := 0; lr < 4; lr++ {
